@@ -667,6 +667,39 @@ M("C06", "M06-3-merge-pushes-in-address-order", dict(
   functions=["collector::sort_key_top_collector::merge_top_k"], bounds="")
 
 
+M("C10", "M10-9-empty-segments-leave-the-register", dict(
+    root=r"^indexer::segment_manager::" + I + r"::committed_segment_metas$", depth=1, unroll=2, inline=[], auto_inline=False,
+    native=[("api_ok", "no_orphan_after_emptied_segment")], absent_ok_events=["evict"],
+    events={"evict": {"call": r"SegmentManager::remove_empty_segments$"},
+            "list": {"call": r"SegmentRegister::segment_metas$"},
+            "ret": {"ret": True}},
+    checks=[("precedes", "evict", "list"), ("reach", "list")]),
+  title="a segment whose documents were all deleted is evicted from the committed register before the committed metas are listed (commit / end_merge): its tracked SegmentMeta otherwise stays in the inventory, GC keeps its files for the writer's lifetime and they are orphans (confirmed natively by the no-orphan probe)",
+  functions=["SegmentManager::committed_segment_metas"], bounds="")
+
+M("C12", "M12-1-merge-token-count-exact-without-deletes", dict(
+    root=r"^indexer::merger::estimate_total_num_tokens_in_single_segment$", depth=1, unroll=2, inline=[], auto_inline=False,
+    native=[("api_ok", "merge_keeps_exact_token_count")],
+    events={"has_deletes": {"call": r"SegmentReader::has_deletes$"},
+            "fieldnorms": {"call": r"FieldNormReaders::get_field$"},
+            "alive_ratio": {"call": r"SegmentReader::num_docs$"},
+            "exact": {"call": r"InvertedIndexReader::total_num_tokens$"},
+            "ret": {"ret": True}},
+    absent_ok_events=["alive_ratio"],
+    checks=[("precedes_true", "has_deletes", "fieldnorms"), ("reach", "exact"), ("reach", "fieldnorms")]),
+  title="merge: the token count a source segment contributes is only *estimated* (field-norm buckets / alive ratio) on paths where has_deletes() returned true; without deletes the exact stored total is used, so BM25's average field length does not depend on the segment split (confirmed natively by the token-count probe)",
+  functions=["merger::estimate_total_num_tokens_in_single_segment"], bounds="")
+
+M("C02", "M02-5-merged-cursor-taken-after-advancing-deletes", dict(
+    root=r"^indexer::segment_updater::merge$", depth=1, unroll=2, inline=[], auto_inline=False,
+    native=[("probe", "update_survives_uncommitted_merge")],
+    events={"advance": {"call": r"index_writer::advance_deletes$"},
+            "cursor": {"call": r"DeleteCursor as std::clone::Clone>::clone$"},
+            "ret": {"ret": True}},
+    checks=[("requires_between", "cursor", "ret", "advance"), ("reach", "cursor"), ("reach", "advance")]),
+  title="merge(): the delete cursor handed to the merged segment is cloned after every source was advanced to the target opstamp - no advance_deletes follows the clone - so deletes older than the target are not replayed (unmapped, i.e. onto every document) on the merged segment (confirmed natively by the update-survives-merge probe)",
+  functions=["segment_updater::merge"], bounds="unroll 2")
+
 # =============================================================================================
 # C03: mixed-type numeric range bounds (mirbv: loop-free integer MIR -> QF_BV)
 # =============================================================================================
